@@ -543,6 +543,59 @@ def kind_of(e: str):
     return 'every_line_is_answered'
 
 
+LITERAL_TAILS = [b'{0+}', b'{3+}', b'see section {12+}', b'{0+}\r', b'{5}', b'+}', b'{1+}\n', b'{+}', b'a {2+}\r\n', b'{0+}\r\n',
+                 b'{99999999999999999999999+}', b'\r\n{0+}']
+
+
+async def literal_tail_scenario(tail: bytes):
+    """the DATA of a non-synchronising literal ends like a literal announcement itself: the literal is opaque, so the
+    command ends with the line break after its n octets, the next command is a command of its own, and what is stored is
+    the data"""
+    errors = []
+    w = await World().start()
+    c = await w.client('c')
+    data = b'Subject: x\r\n\r\nbody ' + tail
+    r = await c.cmd(b'APPEND INBOX {%d+}\r\n' % len(data) + data)
+    if not r['answered'] or b' OK' not in r['tagged'][:12]:
+        errors.append(f'APPEND of a {len(data)}-octet literal+ whose data ends with {tail!r}: answered {r["tagged"]!r} '
+                      f'(the server goes on reading: the tail of the literal was taken for another literal announcement)')
+    for line in (b'NOOP', b'SELECT INBOX'):
+        r = await c.cmd(line)
+        if not r['answered']:
+            errors.append(f'after that APPEND (data ending with {tail!r}) the command {line!r} is never answered (silently swallowed)')
+    r = await c.cmd(b'FETCH * (BODY.PEEK[])')
+    if r['answered'] and not errors:
+        resp = b''.join(u for u in r['untagged'] if b' FETCH ' in u[:24])
+        m = re.search(rb'BODY\[\] \{(\d+)\}\r\n', resp)
+        got = resp[m.end():m.end() + int(m.group(1))] if m else None
+        if got != data:
+            errors.append(f'the literal+ with data ending in {tail!r} was stored as {got!r:.80}')
+    await w.close()
+    if c.exception() is not None:
+        errors.append(f'connection ended by {c.exception()!r}')
+    return errors
+
+
+async def sieve_literal_tail_scenario(tail: bytes):
+    """ManageSieve: a script sent as a non-synchronising literal whose text ends like a literal announcement"""
+    errors = []
+    w = await World(step_budget=1500, time_budget=4.0).start()
+    sc = SieveClient(w, 's')
+    await sc.response()
+    await sc.auth(b'testuser', b'testpass')
+    script = b'# a comment ' + tail
+    last = await sc.cmd(b'PUTSCRIPT "t" {%d+}\r\n' % len(script) + script)
+    if last is None:
+        errors.append(f'PUTSCRIPT of a {len(script)}-octet literal+ whose text ends with {tail!r} is not answered (the server goes on '
+                      f'reading: the tail of the literal was taken for another literal announcement)')
+    for line in (b'NOOP', b'LISTSCRIPTS'):
+        last = await sc.cmd(line)
+        if last is None:
+            errors.append(f'after that PUTSCRIPT (text ending with {tail!r}) the command {line!r} is never answered')
+    await w.close()
+    return errors
+
+
 def bounded_total(label):
     from pyvc.prop import BoundedResult
 
@@ -612,6 +665,26 @@ def bounded_total(label):
         _with_watchdog(None, messages(tier), _msg_worker, 120, on_msg,
                        lambda it: res.fail(f'{label}/other_connections_keep_being_served', dict(message=it[0], bytes=repr(it[1][:200])),
                                            ['watchdog: FETCH/SEARCH of this message did not finish']))
+        # literal data that ends like a literal announcement
+        for tail in LITERAL_TAILS:
+            try:
+                errs = run(literal_tail_scenario(tail))
+            except Exception as exc:    # noqa
+                errs = [f'harness exception {exc!r}']
+            res.evaluations += 1
+            res.distinct.add(('literal-tail', tail))
+            for e in errs[:1]:
+                res.fail(f'{label}/every_line_is_answered', dict(scenario='literal+ data ending like a literal announcement', tail=repr(tail)), [e])
+        for tail in LITERAL_TAILS:
+            try:
+                errs = run(sieve_literal_tail_scenario(tail))
+            except Exception as exc:    # noqa
+                errs = [f'harness exception {exc!r}']
+            res.evaluations += 1
+            res.distinct.add(('sieve-literal-tail', tail))
+            for e in errs[:1]:
+                res.fail(f'{label}/every_line_is_answered', dict(scenario='managesieve literal+ text ending like a literal announcement',
+                                                                  tail=repr(tail)), [e])
         # messages expunged by another session, fetched by a session that has not been told yet (dict and maildir)
         from .e2e_wellformed import expunged_scenario
         for backend in ('dict', '++', 'fs'):
